@@ -36,6 +36,12 @@ def gen_cases(tier, seed):
                 for off in rnd.sample(inv.echo, 2):
                     q[off] = (q[off] + rnd.randrange(1, 256)) & 0xFF
                 muts.append((bytes(q), 'two echo bytes'))
+        # every inner window of the response zeroed (a multi-byte echo replaced as a whole, with its neighbours); windows that
+        # reach the end, or are followed by zeros only, are left out: an all-zero tail is padding (C11), not a wrong echo
+        for i in range(1, len(p)):
+            for j in range(i + 1, len(p)):
+                if j - i >= 2 and any(p[j:]) and any(i <= off < j and p[off] != 0 for off in inv.echo):
+                    muts.append((p[:i] + bytes(j - i) + p[j:], 'zeroed window'))
         muts.append((p, 'matching'))
         for rep, tag in muts:
             for unx in ((1, 0) if tag != 'service id' or tier != 'quick' else (1,)):
